@@ -17,6 +17,10 @@ class OpDef:
 
 OPS = {}
 _loaded = False
+# ops whose documented contract is to return a view of their argument
+# (PhiManip.reorder_pops: "views are its contract"), or that inherit numpy's own aliasing: a transpose is a view, basic slicing
+# is a view, and numpy.ma unary ufuncs (-a, abs(a)) share the operand's mask -- plain numpy.ma behaves the same (verified)
+VIEW_OPS = {'phi_reorder_pops', 'S.reorder_pops', 'S.getitem', 'S.neg'}
 
 
 def reg(name, fn, **kw):
@@ -180,6 +184,19 @@ def _mk_spectrum(seed, shape, maskfrac=0.0, folded=False, pop_ids=None, scale=10
     return fs
 
 
+def _mask_entry(fs, i):
+    """user code masking one entry of its own spectrum in place"""
+    idx = np.unravel_index(i % fs.size, fs.shape)
+    fs[idx] = np.ma.masked
+    return fs
+
+
+def _setitem(fs, i, v):
+    idx = np.unravel_index(i % fs.size, fs.shape)
+    fs[idx] = v
+    return fs
+
+
 def _churn(n, seed):
     """E1: create and free function objects / closures so that per-call closures land on recycled addresses"""
     gc.collect()
@@ -267,6 +284,8 @@ def _load():
     reg('S.mask_corners', lambda a: (a.mask_corners(), a)[1], inplace=(0,), group='spectrum')
     reg('S.unmask_all', lambda a: (a.unmask_all(), a)[1], inplace=(0,), group='spectrum')
     reg('S.copy', lambda a: a.copy(), group='spectrum')
+    reg('S.mask_entry', _mask_entry, inplace=(0,), group='spectrum')
+    reg('S.setitem', _setitem, inplace=(0,), group='spectrum')
     reg('S.sum', lambda a: a.sum(), group='spectrum')
     reg('S.sample_sizes', lambda a: a.sample_sizes, group='spectrum')
     reg('S.getitem', lambda a, idx: a[tuple(idx)] if isinstance(idx, list) else a[idx], group='spectrum')
